@@ -92,7 +92,7 @@ def replay (h : Hist) (n : Nat) : Nat → Prog → List Ev → Outcome → Outco
         | .origin m hd dl k, .call e =>
           if m = e.method && Header.canon hd = Header.canon e.hdr && dl.isSome = e.deadline then
             let ans : OriginAns := match e.outcome, h.reply n e.k with
-              | "resp", some rp => .resp rp.resp e.t1 (rp.bodyFail < 0)
+              | "resp", some rp => .resp rp.resp e.t1 (rp.bodyFail < 0 || rp.resp.body.isEmpty)
               | _, _ => .err e.t1
             replay h n fuel (k ans) rest o
           else mism
